@@ -10,6 +10,8 @@
 //! case lines
 //!   srv.<u|ss|cs|bi> <d|c|D|C> <acc calls> <snd calls> E n hv* A n hv* F n (flag pc msg)* H <reply|fail> n dis M n hv* R rmsg
 //!   cli.<u|ss|cs|bi|U|SS|CS|BI> <snd calls> <acc calls> UE n hv* UA n hv* Q k reqmsg E n hv* HS <none|code> F n (flag pc msg)* TS <none|code>
+//!   pair.<shape> <route> <cli snd> <cli acc> <srv acc> <srv snd> K k H <reply|fail> n dis Q reqmsg R rmsg
+//!     (the client's transport *is* a real `server::Grpc`; both directions are recorded on the way)
 //! calls: string over g,d,z (enable gzip/deflate/zstd) and p (pop; route c only), `-` = none.
 use crate::common::*;
 use bytes::{Buf, BufMut, Bytes};
